@@ -176,3 +176,103 @@ macro_rules! typed_dealloc_harness {
 }
 typed_dealloc_harness!(typed_dealloc_wrappers_up1, true, 1);
 typed_dealloc_harness!(typed_dealloc_wrappers_down4, false, 4);
+
+// ------------------------------------------------------------------------------------------------
+// C01 "split-off parts of a block count as separate live blocks" / C16 independence at the allocator level: a block of
+// LEN bytes is split at a symbolic point k into lo = [0, k) and hi = [k, LEN); ONE operation on one part (symbolic
+// choice of the part and of the operation: deallocate + allocate, grow, shrink, typed shrink_slice + allocate); the
+// OTHER part keeps its bytes and is never overlapped. With MIN_ALIGN 8 a part may end inside the other part's
+// min-align padding (third-round change "is_last rounds up to MIN_ALIGN", fourth-round change in the typed
+// shrink_slice).
+// ------------------------------------------------------------------------------------------------
+fn split_parts_body<const UP: bool, const MA: usize, const LEN: usize>()
+where
+    bump_scope::settings::MinimumAlignment<MA>: bump_scope::settings::SupportedMinimumAlignment,
+{
+    set_budget(1);
+    let Ok(bump) = Bump::<VA, S<MA, UP>>::try_new() else { return };
+    let bump = core::mem::ManuallyDrop::new(bump);
+    set_budget(0);
+    let w = Win::of(bump.stats().current_chunk().unwrap());
+    let Ok(p) = bump.try_allocate_slice::<u8>(LEN) else { return };
+    let base = addr(p);
+    let k: usize = kani::any();
+    kani::assume(k >= 1 && k < LEN);
+    let on_lo: bool = kani::any();
+    // the part operated on / the part that must stay untouched
+    let (tp, tl, op_, ol) = if on_lo { (base, k, base + k, LEN - k) } else { (base + k, LEN - k, base, k) };
+    let (vo, jo, vt, jt): (u8, usize, u8, usize) = (kani::any(), kani::any(), kani::any(), kani::any());
+    kani::assume(jo < ol && jt < tl);
+    unsafe {
+        w.write(op_ + jo, vo);
+        w.write(tp + jt, vt);
+    }
+    let tptr = unsafe { p.add(tp - base) };
+    let lt = core::alloc::Layout::from_size_align(tl, 1).unwrap();
+    let op: u8 = kani::any();
+    kani::assume(op < 4);
+    let ln = any_layout(8, 3);
+    let mut got: Option<(usize, usize)> = None;
+    match op {
+        0 => {
+            unsafe { bump.deallocate(tptr, lt) };
+            if let Ok(n) = bump.allocate(ln) {
+                got = Some((addr(n.cast()), ln.size()));
+            }
+        }
+        1 => {
+            kani::assume(ln.size() >= tl && ln.align() == 1);
+            if let Ok(n) = unsafe { bump.grow(tptr, lt, ln) } {
+                let n = addr(n.cast());
+                got = Some((n, ln.size()));
+                if w.holds(n + jt) {
+                    check!(unsafe { w.read(n + jt) } == vt, "C02: contents of the grown part were not preserved");
+                }
+            }
+        }
+        2 => {
+            kani::assume(ln.size() <= tl && ln.align() == 1);
+            if let Ok(n) = unsafe { bump.shrink(tptr, lt, ln) } {
+                got = Some((addr(n.cast()), ln.size()));
+            }
+        }
+        _ => {
+            let m: usize = kani::any();
+            kani::assume(m <= tl);
+            let q = unsafe { bump.shrink_slice(tptr, tl, m) }.unwrap_or(tptr);
+            check!(disjoint(addr(q), m, op_, ol), "C16/C01: the shrunk part overlaps the other part");
+            if let Ok(n) = bump.allocate(ln) {
+                got = Some((addr(n.cast()), ln.size()));
+            }
+        }
+    }
+    check!(unsafe { w.read(op_ + jo) } == vo, "C16/C02: an operation on one part of a split block changed the other part");
+    if let Some((n, nl)) = got {
+        kani::cover!(op == 0, "deallocate + allocate on a part returned a block");
+        kani::cover!(op == 1, "grow of a part returned a block");
+        kani::cover!(op == 3, "allocation after the typed shrink of a part returned a block");
+        check!(disjoint(n, nl, op_, ol), "C01/C16: a block handed out after an operation on one part of a split block overlaps the other (live) part");
+        if nl > 0 && w.holds(n) {
+            unsafe { w.write(n, !vo) };
+            check!(unsafe { w.read(op_ + jo) } == vo, "C01/C16: writing to the new block changed the other part of the split block");
+        }
+    }
+    let pos = addr(bump.stats().current_chunk().unwrap().bump_position());
+    check!(pos % MA == 0, "C10: bump position is not a multiple of the minimum alignment");
+    kani::cover!(true, "END: harness ran to completion");
+}
+
+macro_rules! split_parts_harness {
+    ($name:ident, $up:literal, $ma:literal, $len:literal) => {
+        #[kani::proof]
+        #[kani::unwind(6)]
+        #[kani::stub(std::alloc::handle_alloc_error, crate::stubs::hae_stub)]
+        fn $name() {
+            split_parts_body::<$up, $ma, $len>();
+        }
+    };
+}
+split_parts_harness!(split_parts_up8_len8, true, 8, 8);
+split_parts_harness!(split_parts_up8_len16, true, 8, 16);
+split_parts_harness!(split_parts_down4_len8, false, 4, 8);
+split_parts_harness!(split_parts_up1_len8, true, 1, 8);
